@@ -724,6 +724,7 @@ def run(chk, replay=None):
     chk.proof_leg(targets, "Properties/C07.v", ["Raw/RawGdsExport_proofs.v", "Raw/RawGdsRoundtrip_proofs.v", "Raw/RawGdsBridge_proofs.v", "Raw/RawGdsLibrary_proofs.v", "Raw/RawGdsNoPanic_proofs.v",
                                                 "Raw/RawGdsAbstract_proofs.v"], "Properties.C07")
     kernel_tie_leg(chk, "transform")
+    kernel_tie_leg(chk, "contains")       # label placement and the re-import's label pass call Polygon::contains
     kernel_tie_leg(chk, "raw")
     kernel_tie_leg(chk, "raw_gdsx")       # gds.rs export_point / export_layerspec / export_shape / label_location generated from the source = the model (Properties/KernelsRawGdsExport.v)
     chk.assumptions += [
